@@ -526,6 +526,26 @@ func runShared(t *testing.T, c sharedCase) (viol string) {
 				}
 				sort.Strings(got)
 				sort.Strings(want)
+				// a vertical ray through the centre of a stored plane hits a plane (asked through the handler)
+				for pi, q := range ref[k].GetRegion(dagaz.NewVector3f(-1000, 0, -1000), dagaz.NewVector3f(1000, 0, 1000)) {
+					if pi >= 3 {
+						break
+					}
+					c := q.Center.ToProtobuf()
+					req++
+					n0 := len(w.Inbox(observer))
+					w.Send(observer, &dagazpb.DagazGetGroundPlaneRequest{Type: TGroundReq, Timestamp: ts, RequestId: req, Ray: &dagazpb.Ray{From: &dagazpb.Point{X: c.X, Y: c.Y + 1, Z: c.Z}, To: &dagazpb.Point{X: c.X, Y: c.Y - 1, Z: c.Z}}})
+					hit := false
+					for _, rx := range w.Inbox(observer)[n0:] {
+						if m, ok := rx.M.(*dagazpb.DagazGetGroundPlaneResponse); ok && m.Ground != nil && m.Ground.Extents != nil && (m.Ground.Extents.X != 0 || m.Ground.Extents.Z != 0) {
+							hit = true
+						}
+					}
+					if !hit && viol == "" {
+						viol = fmt.Sprintf("%s: a vertical ray through the centre (%v,%v,%v) of a plane stored in session %d is answered with no ground plane", stage, c.X, c.Y, c.Z, k+1)
+						return false
+					}
+				}
 				if planes != int(ref[k].PlaneCount) || quads != len(want) || fmt.Sprint(got) != fmt.Sprint(want) {
 					viol = fmt.Sprintf("%s: a member of session %d (connection %d) sees %d planes (region query: %d quads), the samples sent to that session so far make %d planes (%d quads)", stage, k+1, observer, planes, quads, ref[k].PlaneCount, len(want))
 					return false
